@@ -120,24 +120,24 @@ def pe_cert_table(d):
     probs = []
     va, size = L["cert_va"], L["cert_size"]
     if size == 0:
-        return [], ["certificate table entry is empty"]
+        return [], [("no-certtable", "certificate table entry is empty")]
     if va % 8:
-        probs.append("certificate table offset %#x is not 8-byte aligned" % va)
+        probs.append(("certtable-unaligned", "certificate table offset %#x is not 8-byte aligned" % va))
     if va + size != len(d):
-        probs.append("certificate table [%#x,+%#x) does not end at the end of the file (%#x)" % (va, size, len(d)))
+        probs.append(("certtable-not-at-eof", "certificate table [%#x,+%#x) does not end at the end of the file (%#x)" % (va, size, len(d))))
     ends = [s["rawptr"] + s["rawsize"] for s in L["sections"] if s["rawsize"]]
     if ends and va < max(ends):
-        probs.append("certificate table overlaps section data")
+        probs.append(("certtable-overlaps-sections", "certificate table overlaps section data"))
     out, p = [], va
     while p + 8 <= va + size:
         ln, rev, typ = struct.unpack_from("<IHH", d, p)
         if ln < 8 or p + ln > va + size:
-            probs.append("WIN_CERTIFICATE at %#x has dwLength %d beyond the table" % (p, ln))
+            probs.append(("wincert-length", "WIN_CERTIFICATE at %#x has dwLength %d beyond the table" % (p, ln)))
             break
         out.append((rev, typ, d[p + 8:p + ln]))
         p += (ln + 7) & ~7
     if p != va + size:
-        probs.append("certificate table entries do not fill the table exactly (%d != %d)" % (p, va + size))
+        probs.append(("certtable-size", "certificate table entries do not fill the table exactly (%d != %d)" % (p, va + size)))
     return out, probs
 
 
@@ -255,16 +255,16 @@ def cab_signature(d):
     c = cab_parse(d)
     probs = []
     if not c["flags"] & 4:
-        return None, ["cabinet has no reserve area"]
+        return None, [("no-reserve", "cabinet has no reserve area")]
     if c["cbCFHeader"] != 20 or c["cbCFFolder"] or c["cbCFData"]:
-        probs.append("reserve sizes header=%d folder=%d data=%d, signtool layout is 20/0/0" % (c["cbCFHeader"], c["cbCFFolder"], c["cbCFData"]))
+        probs.append(("reserve-layout", "reserve sizes header=%d folder=%d data=%d, signtool layout is 20/0/0" % (c["cbCFHeader"], c["cbCFFolder"], c["cbCFData"])))
     u1, sigoff, sigsize, u2, u3 = struct.unpack("<IIIII", c["abReserve"][:20])
     if sigoff != c["cbCabinet"]:
-        probs.append("signature offset %d != cbCabinet %d" % (sigoff, c["cbCabinet"]))
+        probs.append(("sig-offset", "signature offset %d != cbCabinet %d" % (sigoff, c["cbCabinet"])))
     if sigoff + sigsize != len(d):
-        probs.append("signature [%d,+%d) does not end at EOF %d" % (sigoff, sigsize, len(d)))
+        probs.append(("sig-not-at-eof", "signature [%d,+%d) does not end at EOF %d" % (sigoff, sigsize, len(d))))
     if c["files_end"] > c["folders"][0]["coffCabStart"] if c["folders"] else False:
-        probs.append("CFFILE table overlaps first data block")
+        probs.append(("cffile-overlap", "CFFILE table overlaps first data block"))
     return d[sigoff:sigoff + sigsize], probs
 
 
@@ -755,18 +755,18 @@ def jar_check(path, want_alg=None):
     names = z.namelist()
     bad = z.testzip()
     if bad:
-        probs.append("zip CRC failure in " + bad)
+        probs.append(("zip-crc", "zip CRC failure in " + bad))
     if len(set(names)) != len(names):
-        probs.append("duplicate zip entries: %s" % sorted(n for n in set(names) if names.count(n) > 1)[:3])
+        probs.append(("duplicate-entries", "duplicate zip entries: %s" % sorted(n for n in set(names) if names.count(n) > 1)[:3]))
     mf = z.read("META-INF/MANIFEST.MF")
     sfs = [n for n in names if n.upper().startswith("META-INF/") and n.upper().endswith(".SF") and n.count("/") == 1]
     blocks = [n for n in names if n.upper().startswith("META-INF/") and n.count("/") == 1 and n.upper().rsplit(".", 1)[-1] in ("RSA", "DSA", "EC")]
     facts = {"sf": sfs, "blocks": blocks, "entries": len(names)}
     if len(sfs) != 1 or len(blocks) != 1:
-        probs.append("expected exactly one .SF and one signature block, found %s %s" % (sfs, blocks))
+        probs.append(("sf-block-count", "expected exactly one .SF and one signature block, found %s %s" % (sfs, blocks)))
         return facts, probs
     if sfs[0].rsplit(".", 1)[0] != blocks[0].rsplit(".", 1)[0]:
-        probs.append("signature file and block base names differ")
+        probs.append(("sf-block-names", "signature file and block base names differ"))
     sf = z.read(sfs[0])
     facts["sf_bytes"], facts["block_bytes"], facts["manifest"] = sf, z.read(blocks[0]), mf
     msecs = jar_split_sections(mf)
@@ -783,24 +783,24 @@ def jar_check(path, want_alg=None):
         maxline = max(maxline, ml)
         parsed_s.append(kv)
     if maxline > 72:
-        probs.append("a manifest/signature-file line is %d bytes long including its line ending; the JAR specification allows 72" % maxline)
+        probs.append(("line-too-long", "a manifest/signature-file line is %d bytes long including its line ending; the JAR specification allows 72" % maxline))
     if not mf.endswith(b"\n") or not sf.endswith(b"\n"):
-        probs.append("manifest or signature file does not end with a line terminator")
+        probs.append(("no-final-newline", "manifest or signature file does not end with a line terminator"))
     main_m = dict((k.lower(), v) for k, v in parsed_m[0])
     if "manifest-version" not in main_m:
-        probs.append("manifest main section lacks Manifest-Version")
+        probs.append(("no-manifest-version", "manifest main section lacks Manifest-Version"))
     main_s = dict((k.lower(), v) for k, v in parsed_s[0])
     if "signature-version" not in main_s:
-        probs.append(".SF main section lacks Signature-Version")
+        probs.append(("no-signature-version", ".SF main section lacks Signature-Version"))
     # manifest per-entry sections
     msec_by_name = {}
     for raw, kv in zip(msecs[1:], parsed_m[1:]):
         d = dict((k.lower(), v) for k, v in kv)
         if "name" not in d:
-            probs.append("manifest section without Name")
+            probs.append(("manifest-section-without-name", "manifest section without Name"))
             continue
         if d["name"] in msec_by_name:
-            probs.append("duplicate manifest section for " + d["name"])
+            probs.append(("duplicate-manifest-section", "duplicate manifest section for " + d["name"]))
         msec_by_name[d["name"]] = (raw, d)
     algs = set()
     for k in main_s:
@@ -811,36 +811,36 @@ def jar_check(path, want_alg=None):
     facts["algs"] = sorted(algs)
     pyalg = lambda a: a.replace("-", "").lower()
     if want_alg and sorted(pyalg(a) for a in algs) != [want_alg]:
-        probs.append("signature file uses digest algorithms %s, requested %s" % (sorted(algs), want_alg))
+        probs.append(("digest-alg", "signature file uses digest algorithms %s, requested %s" % (sorted(algs), want_alg)))
     for k, v in main_s.items():
         if k.endswith("-digest-manifest"):
             a = pyalg(k[:-len("-digest-manifest")])
             if base64.b64encode(H(a, mf)).decode() != v:
-                probs.append("%s in .SF != digest of the whole manifest" % k)
+                probs.append(("sf-manifest-digest", "%s in .SF != digest of the whole manifest" % k))
         elif k.endswith("-digest-manifest-main-attributes"):
             a = pyalg(k[:-len("-digest-manifest-main-attributes")])
             if base64.b64encode(H(a, msecs[0])).decode() != v:
-                probs.append("%s in .SF != digest of the manifest main section bytes" % k)
+                probs.append(("sf-main-attributes-digest", "%s in .SF != digest of the manifest main section bytes" % k))
     facts["has_whole_manifest_digest"] = any(k.endswith("-digest-manifest") for k in main_s)
     sf_names = set()
     for kv in parsed_s[1:]:
         d = dict((k.lower(), v) for k, v in kv)
         nm = d.get("name")
         if nm is None:
-            probs.append(".SF section without Name")
+            probs.append(("sf-section-without-name", ".SF section without Name"))
             continue
         sf_names.add(nm)
         if nm not in msec_by_name:
-            probs.append(".SF names %r which has no manifest section" % nm)
+            probs.append(("sf-names-unknown-entry", ".SF names %r which has no manifest section" % nm))
             continue
         nd = 0
         for k, v in d.items():
             if k.endswith("-digest"):
                 nd += 1
                 if base64.b64encode(H(pyalg(k[:-7]), msec_by_name[nm][0])).decode() != v:
-                    probs.append(".SF %s for %r != digest of the manifest section bytes" % (k, nm))
+                    probs.append(("sf-section-digest", ".SF %s for %r != digest of the manifest section bytes" % (k, nm)))
         if nd == 0:
-            probs.append(".SF section for %r has no digest" % nm)
+            probs.append(("sf-section-no-digest", ".SF section for %r has no digest" % nm))
     # every payload entry: manifest section with a correct digest, and covered by the .SF
     covered = 0
     for n in names:
@@ -850,10 +850,10 @@ def jar_check(path, want_alg=None):
         if up.startswith("META-INF/") and n.count("/") == 1 and (up == "META-INF/MANIFEST.MF" or up.rsplit(".", 1)[-1] in ("SF", "RSA", "DSA", "EC") or up[9:].startswith("SIG-")):
             continue
         if n not in msec_by_name:
-            probs.append("entry %r has no manifest section" % n)
+            probs.append(("entry-not-in-manifest", "entry %r has no manifest section" % n))
             continue
         if n not in sf_names:
-            probs.append("entry %r is not listed in the signature file" % n)
+            probs.append(("entry-not-in-sf", "entry %r is not listed in the signature file" % n))
         d = msec_by_name[n][1]
         nd = 0
         data = z.read(n)
@@ -866,9 +866,9 @@ def jar_check(path, want_alg=None):
                     continue
                 nd += 1
                 if got != v:
-                    probs.append("manifest %s of %r != digest of the entry's contents" % (k, n))
+                    probs.append(("manifest-entry-digest", "manifest %s of %r != digest of the entry's contents" % (k, n)))
         if nd == 0:
-            probs.append("manifest section of %r has no digest" % n)
+            probs.append(("manifest-entry-no-digest", "manifest section of %r has no digest" % n))
         covered += 1
     facts["covered"] = covered
     return facts, probs
